@@ -565,7 +565,15 @@ func (c *Ctx) c02Conversions() {
 			continue
 		}
 		n++
-		env := &cong.Env{MaxDepth: 2, IsSym: func(s ssa.Value) bool { return s == ssa.Value(f.Params[0]) }}
+		env := &cong.Env{MaxDepth: 3, IsSym: func(s ssa.Value) bool { return s == ssa.Value(f.Params[0]) },
+			Callee: func(call *ssa.Call) *ssa.Function {
+				g := flow.StaticCallee(call)
+				if g == nil || g.Signature.Recv() != nil || !c.P.InModule(pkgOf(g)) {
+					return nil
+				}
+				return g
+			}}
+		isPadAmount := func(v cong.Val) bool { return !v.Div4 && v.K == 0 && v.T == [4]int64{0, 3, 2, 1} }
 		rv := singleReturn(f)
 		key := fname(f) + ":round-up-4"
 		if rv == nil {
@@ -579,7 +587,7 @@ func (c *Ctx) c02Conversions() {
 				}
 				vals = append(vals, cv)
 			}
-			r.Check(okAll && len(vals) > 0 && vals[0].IsRoundUp4(), "R7", key, c.fpos(f), "round-up-to-4 for all n ≥ 0", "the padding helper is not round-up-to-4")
+			r.Check(okAll && len(vals) > 0 && (vals[0].IsRoundUp4() || isPadAmount(vals[0])), "R7", key, c.fpos(f), "round-up-to-4 (or the distance to it) for all n ≥ 0", "the padding helper is not round-up-to-4")
 			continue
 		}
 		cv, err := env.Eval(rv)
@@ -587,7 +595,7 @@ func (c *Ctx) c02Conversions() {
 			r.Undecided("R7", key, c.fpos(f), "cannot evaluate the padding helper in the congruence domain: "+err.Why)
 			continue
 		}
-		r.Check(cv.IsRoundUp4(), "R7", key, c.fpos(f), fmt.Sprintf("%s(n) = %s = round-up-to-4 for all n ≥ 0", f.Name(), cv), fmt.Sprintf("%s(n) = %s is not round-up-to-4 (expected 1*n+[0 3 2 1])", f.Name(), cv))
+		r.Check(cv.IsRoundUp4() || isPadAmount(cv), "R7", key, c.fpos(f), fmt.Sprintf("%s(n) = %s = round-up-to-4 of n (or its distance from n) for all n ≥ 0", f.Name(), cv), fmt.Sprintf("%s(n) = %s is neither round-up-to-4 (1*n+[0 3 2 1]) nor the distance to it (0*n+[0 3 2 1])", f.Name(), cv))
 	}
 	if n == 0 {
 		r.Undecided("R7", "role:pad-helper", "-", "no padding helper found")
